@@ -595,9 +595,10 @@ class FunctionReport:
         self.axioms = []
 
 
-def verify(registry, contract, timeout_ms=20000, use_cvc5=True):
+def verify(registry, contract, timeout_ms=20000, use_cvc5=True, sample_paths=0, cross_check_cvc5=False):
     """Generate and discharge all obligations of one contract against the current source."""
     rep = FunctionReport(contract)
+    rep.path_samples = []
     try:
         ex = extract.extract(contract.target)
     except extract.ExtractionError as e:
@@ -615,7 +616,8 @@ def verify(registry, contract, timeout_ms=20000, use_cvc5=True):
     def run_path():
         closure = None
         if contract.closure_env is not None:
-            closure = Env(ex.module, None, dict(contract.closure_env(I)))
+            ce = contract.closure_env(I)  # a dict of free variables, or a ready-made Env (module state vector, models_dyn)
+            closure = ce if isinstance(ce, Env) else Env(ex.module, None, dict(ce))
         f = FuncVal(ex.node, ex.module, closure, contract.target, owner)
         vars_ = registry.make_inputs(I, contract)
         I.ghost_inputs = vars_
@@ -644,7 +646,12 @@ def verify(registry, contract, timeout_ms=20000, use_cvc5=True):
         except SymRaise as sr:
             outcome = ("raise", sr.exc)
         check_post(registry, I, contract, env, outcome, reached)
+        if sample_paths and len(rep.path_samples) < sample_paths and contract.replay is not None:
+            m = eng.path_model()
+            if m is not None:
+                rep.path_samples.append(eng._concretize_inputs(m))
 
+    eng.cross_check_cvc5 = cross_check_cvc5
     try:
         eng.explore(run_path)
     except (PyvcError, RecursionError) as e:
